@@ -121,6 +121,24 @@ def check_neutral(p):
                 rendered[(cls, par)] = ("EXC:" + type(e).__name__, None)
                 continue
             rendered[(cls, par)] = (sql, vals)
+    # (a3) the three ways to render - str(q), q.get_sql() and q.get_sql(<class context>) - agree
+    for cls in CTXS:
+        sql, _ = rendered[(cls, False)]
+        if sql.startswith("EXC:"):
+            continue
+        try:
+            q = prog.build_program(dict(p, cls=cls), force_cls=cls)
+            forms = {"str": str(q)}
+            try:
+                forms["noarg"] = q.get_sql()
+            except TypeError:
+                pass
+        except Exception as e:
+            forms = {"str": "EXC:" + type(e).__name__}
+        for name, text in forms.items():
+            if text != sql:
+                out.append((mksig("entry_points", cls, name), "%s gives %r but get_sql(%s context) gives %r" % (name, text, cls, sql)))
+                break
     groupby_aliased = has_aliased_groupby(p)
     for par in (False, True):
         base = None
@@ -184,6 +202,7 @@ TERMS = {
     "interval": ["interval", {"days": 2, "hours": 3}],
     "tz_time": ["vw", TZT],
     "quoted_name": ["col", "T", "Na me"],
+    "groupby_alias": ["col", "T", "g"],
 }
 POSITIONS = ["top_select", "top_where", "from_sub_select", "in_sub_where", "cte_select", "setop_right_select", "join_on", "scalar_sub_select", "insert_select"]
 
@@ -192,7 +211,19 @@ def wrap(term):
     return ["cfn", MK, [term]]
 
 
-def matrix_program(cls, pos, term, inner_cls):
+GROUPBY_MODE = False
+
+
+def matrix_program(cls, pos, term, inner_cls, groupby_mode=False):
+    global GROUPBY_MODE
+    GROUPBY_MODE = groupby_mode
+    try:
+        return _matrix_program(cls, pos, term, inner_cls)
+    finally:
+        GROUPBY_MODE = False
+
+
+def _matrix_program(cls, pos, term, inner_cls):
     src = dict(gen.SOURCES)
     m = wrap(term)
     a = ["col", "T", "a"]
@@ -202,6 +233,12 @@ def matrix_program(cls, pos, term, inner_cls):
         steps = [["from_", [["src", "T"]]], ["select", [sel or a]]]
         if where is not None:
             steps.append(["where", [where]])
+        if GROUPBY_MODE:
+            # the marked term is the aliased select item; the same aliased term is the GROUP BY item
+            gterm = ["as", m, "gk"]
+            steps = [["from_", [["src", "T"]]], ["select", [gterm if sel is not None else a]], ["groupby", [gterm if sel is not None else a]]]
+            if where is not None:
+                steps = [["from_", [["src", "T"]]], ["select", [["as", ["col", "T", "g"], "gk"]]], ["where", [where]], ["groupby", [["as", ["col", "T", "g"], "gk"]]]]
         return dict(icls, sources={}, steps=steps)
 
     if pos == "top_select":
@@ -286,7 +323,47 @@ def marker_tokens(tokens):
     return None
 
 
+GROUPBY_POSITIONS = ("from_sub_select", "in_sub_where", "cte_select", "setop_right_select", "scalar_sub_select")
+
+
+def check_groupby_cell(cls, pos, inner, par):
+    p = matrix_program(cls, pos, TERMS["groupby_alias"], inner, groupby_mode=True)
+    try:
+        sql, vals = render(p, cls, par, force=False)
+    except Exception as e:
+        return ("raises:" + type(e).__name__, "%r" % (e,))
+    toks = lex.lex(sql, cls)
+    idx = [i for i, t in enumerate(toks) if t.kind == "word" and t.value == "GROUP"]
+    if not idx:
+        return ("marker_lost", sql)
+    i = idx[0] + 2
+    item = []
+    depth = 0
+    while i < len(toks):
+        t = toks[i]
+        if t.kind == "punct" and t.text == "(":
+            depth += 1
+        elif t.kind == "punct" and t.text == ")":
+            if depth == 0:
+                break
+            depth -= 1
+        elif depth == 0 and t.kind == "word" and t.value in ("HAVING", "ORDER", "LIMIT", "OFFSET", "UNION"):
+            break
+        item.append(t)
+        i += 1
+    by_alias = [t.key for t in item] == [("qid", "gk")]
+    if cls in NO_GROUPBY_ALIAS and by_alias:
+        return ("form", "GROUP BY refers to the select alias under %s (inner built by %s): %r" % (cls, inner if inner != "inherit" else cls, sql))
+    if cls not in NO_GROUPBY_ALIAS and not by_alias:
+        return ("form", "GROUP BY does not use the select alias under %s (inner built by %s): %r" % (cls, inner if inner != "inherit" else cls, sql))
+    return None
+
+
 def check_cell(cls, pos, term_name, inner, par):
+    if term_name == "groupby_alias":
+        if pos not in GROUPBY_POSITIONS:
+            return None
+        return check_groupby_cell(cls, pos, inner, par)
     p = matrix_program(cls, pos, TERMS[term_name], inner)
     try:
         sql, vals = render(p, cls, par, force=False)
